@@ -7,8 +7,17 @@ out, ns, header = sys.argv[1:4]
 body = open(header).read().rstrip() + '\n'
 imports = []
 items = []
+byref = []
 for spec in sys.argv[4:]:
     path, src_ns, names = spec.split(':')
+    if path.startswith('@'):
+        # by-reference mode (the source file uses section `variable`s, so the signature text alone is
+        # not the statement): the property theorem is stated as `type_of% @original`
+        path = path[1:]
+        imports.append(path[:-5].replace('/', '.'))
+        for n in names.split(','):
+            byref.append((n, src_ns))
+        continue
     mod = path[:-5].replace('/', '.')
     imports.append(mod)
     src = open('/verif/lean/' + path).read()
@@ -44,6 +53,9 @@ text += '\n'
 for n, sig, src_ns in items:
     full = (src_ns + '.' if src_ns else '') + n
     text += 'theorem %s%s := by\n  first | exact %s | exact @%s | (apply %s <;> assumption) | (intros; apply %s <;> assumption)\n\n' % (n, sig, full, full, full, full)
+for n, src_ns in byref:
+    full = (src_ns + '.' if src_ns else '') + n
+    text += 'theorem %s : type_of%% @%s := @%s\n\n' % (n.replace('.', '_'), full, full)
 text += 'end %s\n' % ns
 open(out, 'w').write(text)
 print('wrote', out, len(items), 'theorems')
